@@ -244,11 +244,34 @@ fn check_standalone(s: &mut Session, case: &Case, obs: &[StepObs], desc: &str) {
             if standalone[b] {
                 if !o.emitted.iter().any(|x| *x == TOp::Flush) {
                     s.fail("finish-not-painted", format!("{:?} made no complete draw (emitted {:?})", op, o.emitted), desc.to_string());
-                } else if case.h as usize >= 50 {
-                    let mut vt = Vt::new(case.w, case.h);
+                } else if case.h as usize >= 50 || case.h <= 4 {
+                    // replayed on a screen that is high enough: the painted rows themselves
+                    let mut vt = Vt::new(case.w, 60);
                     vt.feed(&o.emitted);
                     let got = vt.rows();
-                    let exp = expected_rows(&tmpl[b], &want, cleared[b], case.w as usize);
+                    let mut exp = expected_rows(&tmpl[b], &want, cleared[b], case.w as usize);
+                    if case.h <= 4 {
+                        // a terminal lower than the frame: the LINES are painted in order while
+                        // their accumulated rows fit the height (C19); outside C04's Fits proviso
+                        let lines: Vec<String> = if cleared[b] { vec![] } else { render_expected(&tmpl[b], &want).iter().map(|l| l.replace('\u{1}', "X")).collect() };
+                        let mut used = 0;
+                        let mut cut = vec![];
+                        for l in &lines {
+                            let rows = wrap_rows(l, case.w as usize);
+                            if used + rows.len() > case.h as usize {
+                                break;
+                            }
+                            used += rows.len();
+                            cut.extend(rows);
+                        }
+                        while cut.last().map_or(false, |r: &String| r.is_empty()) {
+                            cut.pop();
+                        }
+                        if cut.len() < exp.len() {
+                            s.count("final_frames_cut_by_height(outside Fits)");
+                        }
+                        exp = cut;
+                    }
                     s.count(if is_drop { "final_frames_checked:drop" } else { "final_frames_checked:finish" });
                     if got != exp {
                         s.fail(
@@ -276,81 +299,63 @@ fn check_standalone(s: &mut Session, case: &Case, obs: &[StepObs], desc: &str) {
     }
 }
 
-/// a painted draw with padding rows (bottom alignment, shift > 0): after the erase prologue
-/// (cursor moves / clear_line only) an empty write_line that does not terminate a written line
-fn draw_has_padding(ops: &[TOp]) -> bool {
-    let body_start = ops.iter().position(|o| matches!(o, TOp::Str(_) | TOp::Line(_))).unwrap_or(ops.len());
-    let body = &ops[body_start..];
-    body.iter().enumerate().any(|(i, o)| {
-        matches!(o, TOp::Line(l) if l.is_empty()) && (i == 0 || matches!(body[i - 1], TOp::Line(_)))
-    })
-}
-
-/// Histories that switch to MultiProgressAlignment::Bottom: same screen oracle, but a failure
-/// in the narrow situation of the recorded open finding D22 - bottom alignment is on, a frame
-/// with padding rows (shift > 0) has been painted, and a VISIBLY finished member has been
-/// dropped (its rows are to be kept) - is classified `bottom-alignment-kept-rows-misplaced`;
-/// any other failure keeps the oracle's own class.
-fn run_bottom_cases(s: &mut Session, cases: &[Case], nontrivial: &dyn Fn(&Case, &[StepObs]) -> bool) {
-    for case in cases {
-        let obs = run_case(case);
-        let desc = describe(case);
-        let mut or = Oracle::new(case);
-        let nb = case.bars.len();
-        let (mut bottom, mut padded, mut kept_candidate) = (false, false, false);
-        let mut fin_visible = vec![false; nb];
-        let mut bad = None;
-        for ((_, op), o) in case.ops.iter().zip(obs.iter()) {
-            match op {
-                Op::SetAlign(b) => bottom = bottom || *b,
-                Op::Finish(b, k) => fin_visible[*b] = !matches!(k, Fin::AndClear),
-                Op::FinishUsingStyle(b) => fin_visible[*b] = !matches!(case.bars[*b].fin, Fin::AndClear),
-                Op::Reset(b) => fin_visible[*b] = false,
-                Op::Drop(b) => {
-                    let was_finished = fin_visible[*b];
-                    // dropping an unfinished bar applies the stored finish first
-                    if was_finished || !matches!(case.bars[*b].fin, Fin::AndClear) {
-                        kept_candidate = true;
-                    }
-                }
-                _ => {}
-            }
-            if bottom && o.emitted.iter().any(|x| *x == TOp::Flush) && draw_has_padding(&o.emitted) {
-                padded = true;
-            }
-            if let Some(v) = or.step(op, o) {
-                bad = Some(v);
-                break;
-            }
-        }
-        if bad.is_none() && obs.len() == case.ops.len() {
-            bad = or.final_cursor_check();
-        }
-        if let Some(v) = bad {
-            let class = if v.class == "bottom-alignment-shrunken-frame" && bottom && padded && kept_candidate {
-                "bottom-alignment-kept-rows-misplaced".to_string()
-            } else {
-                v.class.clone()
-            };
-            s.fail(&class, v.detail, desc.clone());
-        }
-        for (_, o) in &case.ops {
-            s.count(&format!("op:{}", o.name()));
-        }
-        s.count("cases_with_bottom_alignment");
-        if padded {
-            s.count("cases_with_bottom_padding_painted");
-        }
-        let nt = nontrivial(case, &obs);
-        s.case(coq_case(case, &obs), desc, nt);
+/// single bar or small MultiProgress on a terminal LOWER than the frames (H in 1..4, narrow W,
+/// multi-line templates): outside the `Fits` proviso of C04_final_screen_standalone.  The finishing
+/// draw must still happen and paint the maximal prefix of the final frame that fits (C19); the
+/// screen oracle classifies the two recorded height-cut defects by cause
+/// ('height-cut-leaves-cursor-mid-row' = D14, 'finished-bar-reaped-behind-the-cut' = D17).
+fn gen_small_h(r: &mut Rng, multi: bool) -> Case {
+    if multi {
+        let mut cfg = GenCfg::default_multi();
+        cfg.max_bars = 4;
+        cfg.max_ops = 25;
+        cfg.w_finish = 35;
+        cfg.w_log = 5;
+        cfg.w_struct = 25;
+        cfg.hz = None;
+        cfg.bottom = false;
+        cfg.widths = vec![2, 3, 5, 8];
+        cfg.heights = vec![2, 3, 4, 6];
+        return gen_multi_case(r, &cfg);
     }
+    let w = *r.pick(&[2u16, 3, 5]);
+    let wu = w as usize;
+    let bar = BarInit {
+        len: Some(r.below(50)),
+        fin: gen_fin_short(r, wu),
+        tmpl: gen_small_tmpl(r, wu, 0),
+        target: TInit::Term(*r.pick(&[None, Some(20u8)])),
+    };
+    let mut t = 0;
+    let mut ops = vec![];
+    for _ in 0..r.range(3, 10) {
+        t += gen_gap(r).max(1_000_000);
+        ops.push((
+            t,
+            match r.below(4) {
+                0 => Op::Tick(0),
+                1 => Op::Inc(0, 1),
+                2 => Op::SetMsg(0, gen_short_text(r, wu)),
+                _ => Op::SetPos(0, r.below(60)),
+            },
+        ));
+    }
+    ops.push((
+        t + 1,
+        match r.below(3) {
+            0 => Op::Drop(0),
+            1 => Op::FinishUsingStyle(0),
+            _ => Op::Finish(0, gen_fin_short(r, wu)),
+        },
+    ));
+    Case { w, h: *r.pick(&[1u16, 2, 3]), fail_at: vec![], fail_from: None, mp: TInit::Hidden, bars: vec![bar], ops }
 }
 
 fn main() {
     let a = args();
     let mut s = Session::new(&a, "C04", COQ_HEADER, COQ_CASE_TY, COQ_CHECKER);
     s.shard_size = 120;
-    s.rule = "finish-heavy histories: (a) a single bar on a 1/20/255 Hz target, 25-45 zero-gap ordinary updates (both limiters exhausted), then finish/finish_with_message/finish_and_clear/abandon/abandon_with_message/finish_using_style/drop with every stored ProgressFinish, more calls, then drop; (b) MultiProgress histories with bursts, finishes and drops of all bars in random order; (c) iterator-driven completion (ProgressBarIter::next recorded call by call); oracle: final state, the finishing call paints exactly the rendering of the final state, is_finished() afterwards, dropping a finished bar makes no call, kept bars stay in order (screen oracle); non-trivial = contains a finish/abandon/drop after at least 10 ops (iterator: at least 3 items); distinct = distinct case text".into();
+    s.rule = "finish-heavy histories: (a) a single bar on a 1/20/255 Hz target, 25-45 zero-gap ordinary updates (both limiters exhausted), then finish/finish_with_message/finish_and_clear/abandon/abandon_with_message/finish_using_style/drop with every stored ProgressFinish, more calls, then drop; (b) MultiProgress histories with bursts, finishes and drops of all bars in random order; (c) iterator-driven completion (ProgressBarIter::next recorded call by call); (d) terminals lower than the frames (H 1-6, W 2-8): the finishing draw must paint the fitting prefix, height-cut defects are classified by cause under their C19 class names; oracle: final state, the finishing call paints exactly the rendering of the final state, is_finished() afterwards, dropping a finished bar makes no call, kept bars stay in order (screen oracle); non-trivial = contains a finish/abandon/drop after at least 10 ops (iterator: at least 3 items); distinct = distinct case text".into();
     let mut r = Rng::new(a.seed);
     let n = if a.thorough { 4000 } else if a.extended { 3000 } else { 500 };
     let mut cases = vec![];
@@ -378,8 +383,19 @@ fn main() {
     };
     let (bottom_cases, top_cases): (Vec<Case>, Vec<Case>) =
         cases.into_iter().partition(|c| c.ops.iter().any(|(_, o)| matches!(o, Op::SetAlign(true))));
+    s.count_n("cases_with_bottom_alignment", bottom_cases.len() as u64);
     run_sys_cases(&mut s, &top_cases, &nontrivial);
-    run_bottom_cases(&mut s, &bottom_cases, &nontrivial);
+    // the screen oracle classifies the recorded open finding D22 (bottom alignment, padded frame,
+    // visibly finished member reaped at the head) as 'bottom-alignment-kept-rows-misplaced' itself
+    run_sys_cases(&mut s, &bottom_cases, &nontrivial);
+    // terminals lower than the frames (outside the Fits proviso of the screen-level theorems)
+    let small: Vec<Case> = (0..n / 5).map(|i| gen_small_h(&mut r, i % 2 == 1)).collect();
+    for case in &small {
+        let obs = run_case(case);
+        check_standalone(&mut s, case, &obs, &format!("small-H {}", describe(case)));
+    }
+    s.count_n("cases_with_small_height", small.len() as u64);
+    run_sys_cases(&mut s, &small, &nontrivial);
     // (c) iterator-driven completion
     for _ in 0..n / 4 {
         let (case, obs) = run_iter_case(&mut r);
